@@ -461,9 +461,57 @@ def f6(tier: str) -> Iterator[Dict]:
             yield t
 
 
-def universe(tier: str, families=("F1", "F2", "F3", "F4", "F5", "F6"), max_assignments=4096) -> List[Dict]:
+BOOL_ONLY = ("and", "exactly_true", "gcc")  # in F7: domains must stay inside [0,1] for these joins
+
+
+def f7(tier: str) -> Iterator[Dict]:
+    """Hidden infeasibility gadgets joined by one constraint: a value of a variable is refuted only once it is *tried*
+    (by a shaving probe or by a branch), never by bound consistency on the open box, and an entailment-capable or one-sided
+    constraint P links two such variables.  Exercises the entailment flags and wake-ups around refuted probes / branches.
+      relation gadget H(b, w), b in [0,1], w in [0,2]:  (b,w) in {(0,1),(1,0),(1,2)} and (b,w) in {(0,0),(1,0),(1,2)}: b=0 impossible
+      mirrored: b=1 impossible;  pigeonhole gadget (x; a, c): x in [1,2], a, c in [0,1], x!=a, x!=c, a!=c: x=1 impossible"""
+    def gadget(b, w, mirrored):
+        f = (lambda t: (1 - t[0], t[1])) if mirrored else (lambda t: t)
+        r1 = [f(t) for t in ((0, 1), (1, 0), (1, 2))]
+        r2 = [f(t) for t in ((0, 0), (1, 0), (1, 2))]
+        return [("relation", [b, w], tuple(v for t in r1 for v in t)), ("relation", [b, w], tuple(v for t in r2 for v in t))]
+
+    joins2 = [("exactly_eq", (1, 1)), ("exactly_eq", (0, 1)), ("exactly_eq", (1, 2)), ("exactly_true", (1,)), ("exactly_true", (2,)),
+              ("affine_leq", (1, 1, 1)), ("affine_geq", (1, 1, 1)), ("affine_leq", (1, -1, 0)), ("affine_geq", (1, -1, 0)),
+              ("affine_geq", (1, 1, 2)), ("affine_eq", (1, 1, 1)), ("affine_eq", (1, -1, 0)), ("max_leq", ()), ("min_geq", ()),
+              ("alldifferent", ()), ("relation", (0, 1, 1, 0)), ("relation", (1, 1, 0, 0)), ("lexicographic_leq", ()),
+              ("element_iv", (1, 0)), ("element_iv", (1, 1)), ("gcc", (0, 0, 0, 2, 1)), ("gcc", (0, 1, 1, 1, 1))]
+    joins3 = [("and", ()), ("count_eq", (1,)), ("count_eq", (0,)), ("max_eq", ()), ("min_eq", ()), ("affine_eq", (1, 1, -1, 0)),
+              ("exactly_eq", (1, 2)), ("exactly_true", (2,)), ("affine_leq", (1, 1, -1, 0)), ("element_liv", ()), ("element_lic", (1,))]
+    for m1, m2 in itertools.product((False, True), repeat=2):
+        g = gadget(0, 1, m1) + gadget(2, 3, m2)
+        for jt, jp in joins2:
+            join = (jt, [0, 2], jp)
+            yield spec([(0, 1), (0, 2), (0, 1), (0, 2)], [(i, 0) for i in range(4)], [join] + g, f"F7:H:{jt}:first")
+            yield spec([(0, 1), (0, 2), (0, 1), (0, 2)], [(i, 0) for i in range(4)], g + [join], f"F7:H:{jt}:last")
+        for jt, jp in joins3:
+            join = (jt, [0, 2, 4], jp)
+            last = (0, 1) if jt in BOOL_ONLY else (0, 2)  # boolean-only types keep boolean domains (contract)
+            yield spec([(0, 1), (0, 2), (0, 1), (0, 2), last], [(i, 0) for i in range(5)], g + [join], f"F7:H3:{jt}")
+    # pigeonhole gadgets (binary alldifferent), joined by one-sided constraints on the two x
+    ph = lambda x, a, c: [("alldifferent", [x, a], ()), ("alldifferent", [x, c], ()), ("alldifferent", [a, c], ())]
+    for jt, jp in [("affine_leq", (1, 1, 3)), ("affine_geq", (1, 1, 4)), ("affine_leq", (1, -1, 0)), ("max_leq", ()), ("min_geq", ()),
+                   ("exactly_eq", (2, 1)), ("exactly_eq", (1, 1)), ("alldifferent", ()), ("affine_eq", (1, -1, 0))]:
+        cons = [(jt, [0, 3], jp)] + ph(0, 1, 2) + ph(3, 4, 5)
+        yield spec([(1, 2), (0, 1), (0, 1), (1, 2), (0, 1), (0, 1)], [(i, 0) for i in range(6)], cons, f"F7:PH:{jt}")
+    # one gadget, P on (b, w) itself and on (b, free)
+    for m in (False, True):
+        for jt, jp in joins2:
+            free = (0, 1) if jt in BOOL_ONLY else (0, 2)
+            yield spec([(0, 1), (0, 2), free], [(i, 0) for i in range(3)], gadget(0, 1, m) + [(jt, [0, 2], jp)], f"F7:H1:{jt}")
+
+
+ALL = ("F1", "F2", "F3", "F4", "F5", "F6", "F7")
+
+
+def universe(tier: str, families=ALL, max_assignments=4096) -> List[Dict]:
     out, seen = [], set()
-    gens = {"F1": f1, "F2": f2, "F3": f3, "F4": f4, "F5": f5, "F6": f6}
+    gens = {"F1": f1, "F2": f2, "F3": f3, "F4": f4, "F5": f5, "F6": f6, "F7": f7}
     for fam in families:
         for s in gens[fam](tier):
             if n_assignments(s) > max_assignments and not s["tag"].startswith("F3"):
